@@ -36,7 +36,8 @@ Inductive case :=
        (mprop : list nat)
 | Cang (self other2 : list (list float)) (out : list float)
 | Crnd (idx : list float) (M : nat) (out : list Z)
-| Cuniq (ops : list (rot (T:=float))) (flat out : list (list float)).
+| Cuniq (ops : list (rot (T:=float))) (flat base : list (list float)) (orbits : list (list (list float)))
+        (out : list (list float)).
 Definition ang_close (xs ys : list float) : bool := fclose_list_tol 0x1p-17 xs ys.
 Definition ok (c : case) : bool :=
   match c with
@@ -54,8 +55,10 @@ Definition ok (c : case) : bool :=
       | None => false
       end
   | Crnd idx M out => zs_eqb (fround_indices M idx) out
-  | Cuniq ops flat out =>
-      frows_eqb (fst (miller_unique_num FOps f_round10 ops true flat)) out
+  | Cuniq ops flat base orbits out =>
+      frows_eqb (fst (fst (base_unique FOps f_round10 flat))) base
+      && all2 rows_close (map (fun r => map (fun g => ract_row FOps g r) ops) base) orbits
+      && frows_eqb (unique_sym_from_orbits FOps f_round10 base orbits) out
   end.
 """
 
@@ -70,7 +73,7 @@ def case_coq(c):
     if k == "rnd":
         return f"Crnd {frow(c['idx'])} {int(c['max_index'])}%nat ({zlist(c['out'])})%Z"
     if k == "uniq":
-        return f"Cuniq {rots(c['ops'])} {frows(c['flat'])} {frows(c['out'])}"
+        return f"Cuniq {rots(c['ops'])} {frows(c['flat'])} {frows(c['base'])} {frows3(c['orbits'])} {frows(c['out'])}"
     raise ValueError(k)
 
 
@@ -91,7 +94,7 @@ def correspond(ck, cases, chunk=40):
             what = {"sym": f"Miller.symmetrise / multiplicity (group {c.get('group')}, shape {c.get('shape')})",
                     "ang": f"Miller.angle_with(use_symmetry=True) (group {c.get('group')})",
                     "rnd": "_round_indices", "uniq": f"Miller.unique(use_symmetry=True) (group {c.get('group')})"}[c["k"]]
-            small = {k: v for k, v in c.items() if k not in ("v2", "ops", "all")}
+            small = {k: v for k, v in c.items() if k not in ("v2", "ops", "all", "orbits")}
             ck.disagreement(f"model and implementation differ on {what}", small)
 
 
@@ -122,7 +125,7 @@ def run(tier, seed):
     out = run_impl("c10.py", {"seed": seed, "n": n})
     cases = out["cases"]
     for c in cases:
-        key = {k: v for k, v in c.items() if k not in ("v2", "ops", "all")}
+        key = {k: v for k, v in c.items() if k not in ("v2", "ops", "all", "orbits")}
         ck.count("case/" + c["k"], json.dumps(key, sort_keys=True)[:3000])
     for s, v in out["strata"].items():
         ck.cov["strata"][s] = v
@@ -137,6 +140,8 @@ def run(tier, seed):
         rep.append("angle_pair")
     if all(v in (3, 6, 12) for v in w.get("threshold_mult", {}).values()):
         rep.append("threshold_mult")
+    if w.get("unique_equiv_pair") != 2:
+        rep.append("unique_equiv_pair")
     ck.cov["refuted_witnesses_reproduce"] = not rep
     if rep:
         ck.notes.append("finding no longer reproduces for witness(es): " + ", ".join(rep))
